@@ -76,12 +76,14 @@ def specs_for(tier, seed):
                     ("answer lost on a shared endpoint", {"lost": True})]
         # the CA refuses newOrder for another reason than an unknown account (every error type the client does not retry, in turn): no excuse
         # for a second registration
-        refusals = [t for t in flows.NONREC if t != "accountDoesNotExist"]
-        refuse = ("CA refuses newOrder (not: account unknown)", {"refuse": refusals[(pi + seed) % len(refusals)]})
+        likely = ["unauthorized", "rejectedIdentifier", "userActionRequired", "externalAccountRequired", "caa", "unsupportedIdentifier", "compound"]
+        refusals = likely + [t for t in flows.NONREC if t != "accountDoesNotExist" and t not in likely]
+        # two types per endpoint (the first newOrder gets one, every later one the next): ten patterns walk through all sixteen
+        refuse = ("CA refuses newOrder (not: account unknown)", {"refuse": 2 * pi + seed - 1})
         if tier != "thorough":
             variants = [variants[0], variants[1 + (pi + seed) % 4]] + ([variants[4]] if (pi + seed) % 4 != 3 else []) + [refuse]
         else:
-            variants = variants + [("CA refuses newOrder (not: account unknown)", {"refuse": t}) for t in refusals[pi % 3::3]]
+            variants = variants + [("CA refuses newOrder (not: account unknown)", {"refuse": k}) for k in range(pi % 2, len(refusals), 2)]
         for vname, v in variants:
             for workers in ((1, 2, 4, 16) if tier == "thorough" else (rng.choice([1, 2, 4, 16]),)):
                 used_a = sorted({a for a, _ in pat})
@@ -96,8 +98,10 @@ def specs_for(tier, seed):
                     sc = []
                     if v.get("adne"):
                         sc = [{"kind": "newOrder", "nth": 1 + rng.randrange(2), "fault": "acme:accountDoesNotExist:400", "repeat": 1}]
-                    if v.get("refuse"):
-                        sc = [{"kind": "newOrder", "nth": 1, "fault": "acme:%s:403" % v["refuse"], "repeat": 10 ** 6}]
+                    if v.get("refuse") is not None:
+                        k = v["refuse"] + 8 * e
+                        sc = [{"kind": "newOrder", "nth": 1, "fault": "acme:%s:403" % refusals[k % len(refusals)], "repeat": 1},
+                              {"kind": "newOrder", "nth": 2, "fault": "acme:%s:400" % refusals[(k + 1) % len(refusals)], "repeat": 10 ** 6}]
                     if v.get("lost"):
                         sc = [{"kind": rng.choice(["newOrder", "newAccount", "authz"]), "nth": 1, "fault": "drop_after", "repeat": 1}]
                     # every other scenario: a CA whose account objects carry no `orders` member (optional; Boulder omits it)
@@ -113,7 +117,7 @@ def specs_for(tier, seed):
                     steps.append(("call", edit))
                     steps.append(("run", {"attempts": 1, "env": {"TOKIO_WORKER_THREADS": str(workers)}}))
                 sp = dict(tag="C12/s%03d" % len(specs), certs=certs, endpoints=endpoints, accounts=accounts, steps=steps, timeout=90,
-                          meta={"family": vname + (" " + v["refuse"] if v.get("refuse") else ""), "pattern": pat, "workers": workers, "delay_seed": dseed, "orders_member": len(specs) % 2 == 1})
+                          meta={"family": vname + (" from %s on" % refusals[v["refuse"] % len(refusals)] if v.get("refuse") is not None else ""), "pattern": pat, "workers": workers, "delay_seed": dseed, "orders_member": len(specs) % 2 == 1})
                 specs.append(flowcheck.prepare(sp))
     return specs
 
